@@ -150,6 +150,13 @@ def canon_val(kind_src, v):
     return hval(v)
 
 
+# extra header keys as a class: ordinary names, Python keywords / soft keywords / constants / builtins (legal attribute
+# names for setattr / getattr: `^[a-zA-Z]\w*$` and not already an attribute), near misses of those, long names
+EXTRA_POOL = ['bias', 'decoder', 'seed', 'a1', 'X_y', 'code', 'n_run',
+              'lambda', 'in', 'is', 'as', 'from', 'class', 'def', 'del', 'None', 'True', 'import', 'match', 'type', 'self',
+              'print', 'len', 'Lambda', 'lambda_', 'a__b', 'Z9', 'x' * 40, 'filename', 'start']
+
+
 def gen_file(rng, malformed):
     """returns (lines (text without newline), info)"""
     n = rng.choice([1, 2, 3, 5, 8, 13, 25, 40])
@@ -162,7 +169,7 @@ def gen_file(rng, malformed):
     if rng.random() < 0.6:
         header['probability_distribution'] = rng.choice([[0.9, 0.05, 0.03, 0.02], [1, 0, 0, 0], [], None])
     for _ in range(rng.choice([0, 0, 1, 2, 3])):
-        header[rng.choice(['bias', 'decoder', 'seed', 'a1', 'X_y', 'code', 'n_run'])] = rng.choice(
+        header[rng.choice(EXTRA_POOL)] = rng.choice(
             [1, 2.5, 'txt', [1, 2], {'a': 1}, None, True])
     kind = 'wellformed'
     items = list(header.items())
@@ -884,10 +891,13 @@ def drive(path, start, calls, header):
     except Exception as ex:
         return 'open=' + type(ex).__name__
     out = []
-    for c in calls:
+    codes = {}      # app.run hands the SAME code object to every generate call: mostly shared objects, sometimes a fresh one
+    for ci, c in enumerate(calls):
         try:
             if c[0] == 'g':
-                e = fem.generate(FakeCode(c[1]), c[2])
+                if (ci * 7 + len(calls)) % 4 == 0 or c[1] not in codes:
+                    codes[c[1]] = FakeCode(c[1])
+                e = fem.generate(codes[c[1]], c[2])
                 if not isinstance(e, np.ndarray):
                     out.append('notarray')
                 else:
